@@ -166,7 +166,9 @@ def gen_case(rng, cid, maxdepth):
             lambda: ("list", [a_dead_delete(rng, g), g.node(1)]),
         ])()
     toks = exprgen.render(ast, rng)
-    return {"id": cid, "stratum": stratum, "toks": ["-sorted"] + toks, "files": g.files, "has_plus": g.has_plus}
+    # one starting point, or the same tree walked twice / a second starting point (what -quit stops includes later starting points)
+    roots = ["r"] if rng.random() < 0.75 else rng.choice([["r", "r"], ["r", "r", "r"], ["r", "r/."], ["./r", "r"]])
+    return {"id": cid, "stratum": stratum, "toks": ["-sorted"] + toks, "files": g.files, "has_plus": g.has_plus, "roots": roots}
 
 
 def exec_truth(argv, e):
@@ -204,7 +206,11 @@ def judge(case, cwd, stdout, code, panic, reclog, st, vehicle):
     if panic:
         st.violate("panic", None, {"args": toks, "panic": panic, "vehicle": vehicle}, {"case": case})
         return
-    env, opts, ast, nvis, w = reference(case, cwd)
+    env, opts, ast, nvis, w = reference(case, cwd, case.get("roots", ["r"]))
+    if len(case.get("roots", ["r"])) > 1:
+        st.inc("runs_with_several_starting_points")
+        if env.evaluated_quit:
+            st.inc("quit_with_several_starting_points")
     st.inc("evaluations")
     st.inc("stratum:" + case["stratum"])
     st.add("distinct", refeval.shape(ast))
@@ -262,7 +268,7 @@ def judge(case, cwd, stdout, code, panic, reclog, st, vehicle):
     if problems:
         minmax = opts["maxdepth"] is not None and opts["mindepth"] > opts["maxdepth"]
         st.violate("output-differs", None,
-                   {"args": ["find", "r"] + toks, "stratum": case["stratum"], "problems": problems[:4],
+                   {"args": ["find"] + case.get("roots", ["r"]) + toks, "stratum": case["stratum"], "problems": problems[:4],
                     "expected_stdout": refeval.expected_bytes(env.sinks.get("stdout", []))[:600],
                     "observed_stdout": stdout[:600], "vehicle": vehicle, "min_gt_max": minmax},
                    {"case": case, "tree": None})
@@ -338,7 +344,7 @@ def worker(job):
             reclog_path = os.path.join(sb, "rec.log")
             env = dict(os.environ)
             env.update({"VERIF_REC_LOG": reclog_path, "VERIF_REC_FN": "mod:2"})
-            lines = [common.find_case(c["id"], ["find", "r"] + c["toks"]) for c in cases]
+            lines = [common.find_case(c["id"], ["find"] + c["roots"] + c["toks"]) for c in cases]
             raw = common.run_vh("find", lines, base, cwd=sb, env=env)
             reclog = read_reclog(reclog_path)
             for c in cases:
@@ -360,7 +366,7 @@ def worker(job):
                     if os.path.exists(p):
                         os.unlink(p)
                 e2 = common.clean_env({"VERIF_REC_LOG": rl, "VERIF_REC_FN": "mod:2"})
-                rc, out, err, to = common.run_cmd([common.FIND, "r"] + c["toks"], cwd=sb, env=e2, timeout=60)
+                rc, out, err, to = common.run_cmd([common.FIND] + c["roots"] + c["toks"], cwd=sb, env=e2, timeout=60)
                 if to:
                     st.violate("hang", None, {"args": c["toks"]}, {"case": c})
                     continue
